@@ -231,8 +231,8 @@ def r19_1b(ctx):
     """The encoders as black boxes: every state log up to a small length is pushed through the analyser's interpreter (the
     margin stays a symbol) and the returned interval lists must be exactly the maximal runs of each reported state.  This does
     not depend on how the encoder keeps its run state (markers, helper closures, tables)."""
-    ctx.begin("R19.1b", "encoders on every log up to length 3 (4 in the thorough tier): intervals == maximal runs, in (ready, working[, absence]) order", floor=4)
-    maxlen = 4 if ctx.thorough else 3
+    ctx.begin("R19.1b", "encoders on every log up to length 3 (5 in the thorough tier): intervals == maximal runs, in (ready, working[, absence]) order", floor=4)
+    maxlen = 5 if ctx.thorough else 3
     m = Poly.sym("m")
     for cls, enum, lmap, init_prev in ENCODERS:
         f = ctx.repo.method(cls, "get_time_list_for_gannt_chart")
